@@ -295,7 +295,10 @@ def prove_cells(mod, name, nargs, in_cells, out_cells, specs, alias=None, seed=0
                 continue
             v = sym64(c, nm, bx, 0)
             A[nm] = Poly.var(nm + 'h') * M32 + Poly.var(nm + 'l')
-            st.mem[KPtr(ptrs[ai].obj, off)] = v
+            if off is None:
+                ptrs[ai] = v            # the operand is passed by value (an Element in a register)
+            else:
+                st.mem[KPtr(ptrs[ai].obj, off)] = v
         try:
             outs = K.run_fn(st, name, ptrs)
         except (Undecided, IRError, KeyError, AssertionError) as e:
